@@ -454,7 +454,7 @@ func c14StepCheck(x *cpuCtx, c *cpuCase) (sig, what string) {
 // ---- RunUntil with a Logger: non-perturbation and one truthful line per instruction
 
 func c14RunCheck(w *c12World, rr c12Run) (sig, what string) {
-	if sig, what = c12Exec(w, rr); sig != "" {
+	if sig, what = c12Exec(w, rr); sig != "" || w.skipped {
 		return
 	}
 	var log string
@@ -593,6 +593,19 @@ func runC14(r *report.Run) {
 			for _, b := range []uint64{0xFF, 0x100, 0x101, 300, 1000} {
 				for _, lg := range []int{1, 2} {
 					runs = append(runs, c12Run{Prog: prog, Start: start, Target: 0x7E3000, Budget: b, Logger: lg})
+				}
+			}
+		}
+	}
+	// "no limit" budgets (2^63, 2^64-1) towards targets that are reached
+	for _, prog := range [][]string{{"NOP", "INX", "LDA #$1234", "STA $10", "NOP"}, {"LDA #$1234", "PHA", "PLA", "JSR next", "RTS"}} {
+		for _, start := range []uint32{0x7E2000, 0x008000} {
+			_, bounds, _ := c12Assemble(prog, start)
+			for _, t := range bounds {
+				for _, b := range []uint64{1 << 63, ^uint64(0), 1<<63 - 1, 1 << 32} {
+					for _, lg := range []int{1, 2} {
+						runs = append(runs, c12Run{Prog: prog, Start: start, Target: t, Budget: b, Logger: lg})
+					}
 				}
 			}
 		}
